@@ -22,6 +22,9 @@ def _reader_session(rng, ns, nreads_max=3):
     ops = [[rng.weighted([(5, LOCK), (1, TRY), (1, TRY_FOR), (1, TRY_UNTIL)]), s]]
     for _ in range(rng.range(0, nreads_max)):
         ops.append([READ, s])
+    if rng.chance(1, 4):
+        # "refresh" the held handle: release (flag 1) immediately followed by lock_shared into the same slot
+        ops += [[RELEASE, s, 1], [LOCK, s], [READ, s]]
     if ns > 1 and rng.chance(1, 3):
         s2 = (s + 1 + rng.below(ns - 1)) % ns
         ops.append([LOCK, s2])
@@ -32,7 +35,8 @@ def _reader_session(rng, ns, nreads_max=3):
         else:
             ops += [[RELEASE, s2], [READ, s], [RELEASE, s]]
     else:
-        ops.append([RELEASE, s])
+        # a quarter of the final releases run on a different OS thread than the acquisition (flag 2)
+        ops.append([RELEASE, s, 2] if rng.chance(1, 4) else [RELEASE, s])
     return ops
 
 
@@ -113,6 +117,8 @@ def gen(rng, tier, spec):
     flags = []
     if rng.chance(1, 3):
         flags.append(-1)          # built from an rvalue payload with a destructive move
+    if rng.chance(1, 3):
+        flags.append(-3)          # payload copy assignment throws part-way outside exception handlers
     if rng.chance(1, 3):
         flags.append(-2)          # Mutex = std::timed_mutex; then mostly the timed shared forms
         for p in progs:
